@@ -7,6 +7,12 @@ package rangecache
 //     overflow, failing remote at any call, pre-cancelled contexts, expiry of chosen entries by controlled age),
 //   - random long histories,
 //   - concurrent readers (+ expiry and truthful SetRange) checked by the oracle only.
+// A failing remote call fails the way real fetchers do (vc17FailModes): a generic error with a scribbled buffer, io.EOF or
+// io.ErrUnexpectedEOF with no bytes, or with a short count (the first bytes right, the rest of the buffer untouched) - what
+// os.File / bytes.Reader ReadAt give on a remote that holds fewer bytes than announced, and io.ReadFull on a body that is
+// empty or breaks off. Every mode for every range (in particular those ending at the file size) in the histories of length
+// <= 2, rotating through the longer enumerations, drawn in the random and concurrent runs. The oracle does not look at
+// the error value; the Coq action alphabet keeps the single "fetch fails".
 // The property oracle is evaluated directly on every observation (rep.Fail with stable signatures); a sample
 // of the sequential histories, with the cache contents after every step, is written as Coq terms and checked
 // by YF.C17_Check.check (acceptance predicate proved to imply the property).
@@ -18,6 +24,7 @@ import (
 	"context"
 	"errors"
 	"fmt"
+	"io"
 	"math"
 	"os"
 	"path/filepath"
@@ -39,8 +46,41 @@ var errVC17Remote = errors.New("vc17: injected remote failure")
 type vc17Remote struct {
 	data     []byte
 	failNext bool
+	failMode int
 	calls    int
 	failed   int
+}
+
+// the ways a remote call fails (vc17Op.Mode)
+var vc17FailModes = []string{"generic error, buffer scribbled", "io.EOF, no bytes", "io.EOF, short count", "io.ErrUnexpectedEOF, no bytes", "io.ErrUnexpectedEOF, short count"}
+
+// vc17FailFetch is a failed remote call in the given mode: (n, err) with n < len(p) whenever len(p) > 0.
+func vc17FailFetch(data, p []byte, off int64, mode int) (int, error) {
+	var err error
+	switch mode {
+	case 1, 2:
+		err = io.EOF
+	case 3, 4:
+		err = io.ErrUnexpectedEOF
+	default:
+		for i := range p {
+			p[i] = 0xEE
+		}
+		return 0, errVC17Remote
+	}
+	n := 0
+	if mode == 2 || mode == 4 { // the first half of the bytes arrived (never all; none of a 1-byte read), the rest of p is untouched
+		n = len(p) / 2
+		if n == 0 && len(p) > 1 {
+			n = 1
+		}
+		for i := 0; i < n; i++ {
+			if j := off + int64(i); j >= 0 && j < int64(len(data)) {
+				p[i] = data[j]
+			}
+		}
+	}
+	return n, err
 }
 
 func (r *vc17Remote) fetch(p []byte, off int64) (int, error) {
@@ -48,10 +88,7 @@ func (r *vc17Remote) fetch(p []byte, off int64) (int, error) {
 	if r.failNext {
 		r.failNext = false
 		r.failed++
-		for i := range p {
-			p[i] = 0xEE
-		}
-		return 0, errVC17Remote
+		return vc17FailFetch(r.data, p, off, r.failMode)
 	}
 	for i := range p {
 		j := off + int64(i)
@@ -70,6 +107,7 @@ type vc17Op struct {
 	Ln     int64  `json:"ln"`
 	Cancel bool   `json:"cancel,omitempty"` // context already cancelled
 	Fail   bool   `json:"fail,omitempty"`   // get: the remote fails at its next call
+	Mode   int    `json:"failmode,omitempty"` // get with Fail: how it fails (index into vc17FailModes)
 	Extra  int    `json:"extra,omitempty"`  // set: value length = ln + Extra (0 = well-formed)
 	Del    string `json:"del,omitempty"`    // del: all | none | first | last
 }
@@ -84,6 +122,9 @@ func (o vc17Op) String() string {
 		f := ""
 		if o.Fail {
 			f = "!fail"
+			if o.Mode > 0 && o.Mode < len(vc17FailModes) {
+				f = "!fail<" + vc17FailModes[o.Mode] + ">"
+			}
 		}
 		return fmt.Sprintf("G(%d,%d)%s%s", o.Start, o.Ln, f, c)
 	case "set":
@@ -223,7 +264,7 @@ func vc17Run(rep *vh.Report, data []byte, ops []vc17Op, sweep bool) []vc17Obs {
 		if op.Cancel {
 			ctx = vc17Cancelled()
 		}
-		rem.failNext = op.Fail
+		rem.failNext, rem.failMode = op.Fail, op.Mode
 		c0, f0 := rem.calls, rem.failed
 		var got []byte
 		var err error
@@ -342,6 +383,14 @@ func vc17Run(rep *vh.Report, data []byte, ops []vc17Op, sweep bool) []vc17Obs {
 		pre = o.Snap
 	}
 	if sweep {
+		// a failed fetch is not cached: once the remote has recovered, the next read of that range tells the truth
+		for _, op := range ops {
+			if op.Kind == "get" && op.Fail && vc17Inside(size, op.Start, op.Ln) {
+				o := doGet(len(ops), vc17Op{Kind: "get", Start: op.Start, Ln: op.Ln})
+				obs = append(obs, o)
+				pre = o.Snap
+			}
+		}
 		// whatever happened before, a later read of the whole file (and of each byte) tells the truth
 		o := doGet(len(ops), vc17Op{Kind: "get", Start: 0, Ln: size})
 		obs = append(obs, o)
@@ -426,7 +475,9 @@ func vc17FullAlphabet(size int64) []vc17Op {
 	for s := int64(0); s <= size; s++ {
 		for e := s; e <= size; e++ {
 			ops = append(ops, vc17Op{Kind: "get", Start: s, Ln: e - s})
-			ops = append(ops, vc17Op{Kind: "get", Start: s, Ln: e - s, Fail: true})
+			for m := range vc17FailModes {
+				ops = append(ops, vc17Op{Kind: "get", Start: s, Ln: e - s, Fail: true, Mode: m})
+			}
 			ops = append(ops, vc17Op{Kind: "set", Start: s, Ln: e - s})
 		}
 	}
@@ -477,14 +528,22 @@ func vc17ReducedAlphabet(size int64) []vc17Op {
 // vc17Enumerate runs every history of exactly n operations over the alphabet.
 func vc17Enumerate(rep *vh.Report, cases *vh.CasesFile, rng *vh.Rng, tag string, data []byte, alpha []vc17Op, n int, coqOneIn int) {
 	idx := make([]int, n)
-	ops := make([]vc17Op, n)
-	for {
+	rotate := true // an alphabet that does not spell the failure modes out: rotate through them
+	for _, a := range alpha {
+		rotate = rotate && a.Mode == 0
+	}
+	for h := 0; ; h++ {
+		ops := make([]vc17Op, n)
 		for i := range idx {
 			ops[i] = alpha[idx[i]]
+			if rotate && ops[i].Fail {
+				ops[i].Mode = (h + 2*i) % len(vc17FailModes)
+				rep.Count("enumerated failing fetch: " + vc17FailModes[ops[i].Mode])
+			}
 		}
 		obs := vc17Run(rep, data, ops, true)
 		nontrivial := false
-		for _, o := range obs[:len(obs)-1] {
+		for _, o := range obs[:n] {
 			if o.Op.Kind == "get" && !o.IsErr {
 				nontrivial = true
 			}
@@ -541,7 +600,7 @@ func vc17RandomOp(rng *vh.Rng, size int64) vc17Op {
 	case x < 55:
 		return vc17Op{Kind: "get", Start: s, Ln: l}
 	case x < 65:
-		return vc17Op{Kind: "get", Start: s, Ln: l, Fail: true}
+		return vc17Op{Kind: "get", Start: s, Ln: l, Fail: true, Mode: rng.Intn(len(vc17FailModes))}
 	case x < 72: // not inside the file
 		switch rng.Intn(5) {
 		case 0:
@@ -555,7 +614,7 @@ func vc17RandomOp(rng *vh.Rng, size int64) vc17Op {
 		}
 		return vc17Op{Kind: "get", Start: size + 1 + int64(rng.Intn(3)), Ln: int64(rng.Intn(2))}
 	case x < 76:
-		return vc17Op{Kind: "get", Start: s, Ln: l, Cancel: true, Fail: rng.Intn(4) == 0}
+		return vc17Op{Kind: "get", Start: s, Ln: l, Cancel: true, Fail: rng.Intn(4) == 0, Mode: rng.Intn(len(vc17FailModes))}
 	case x < 88:
 		return vc17Op{Kind: "set", Start: s, Ln: l}
 	case x < 90:
@@ -582,10 +641,7 @@ func (r *vc17ConcRemote) fetch(p []byte, off int64) (int, error) {
 	if z%6 == 0 {
 		c, _ := r.failed.LoadOrStore([2]int64{off, int64(len(p))}, new(atomic.Int64))
 		c.(*atomic.Int64).Add(1)
-		for i := range p {
-			p[i] = 0xEE
-		}
-		return 0, errVC17Remote
+		return vc17FailFetch(r.data, p, off, int((z>>8)%uint64(len(vc17FailModes))))
 	}
 	for i := range p {
 		j := off + int64(i)
@@ -772,7 +828,7 @@ func TestVerif_C17(t *testing.T) {
 	if vh.Thorough() {
 		coqScale = 3
 	}
-	vc17Enumerate(rep, cases, rng, "full6", d6, full, 2, 8/coqScale)
+	vc17Enumerate(rep, cases, rng, "full6", d6, full, 2, 30/coqScale) // 1 in 30 of ~52 000 histories goes through the Coq checker
 	vc17Enumerate(rep, cases, rng, "red6", d6, red, 3, 100/coqScale)
 	vc17Enumerate(rep, cases, rng, "red4", d4, small, 4, 600/coqScale)
 	if vh.Thorough() {
